@@ -20,3 +20,28 @@ Proof. exact foreign_gateway_irrelevant. Qed.
 Theorem C17_foreign_named_class_disables_everything :
   forall cs q, class_active cs = false -> decide cs q = DOutcome ONoListener false.
 Proof. intros cs q H. unfold decide, winning_gateway. rewrite H. reflexivity. Qed.
+
+(* ---- the gate through which a Route enters the graph (model of findGatewayForParentRef / buildSectionNameRefs, C17/Parent.v, compared
+   with the real function on every run): only parentRefs that name one of this controller's Gateways - kind Gateway or absent, the
+   Gateway API group or absent, the namespace given or the Route's, the name - survive; a Route none of whose parentRefs does keeps no
+   reference, which is when buildHTTPRoute / buildGRPCRoute return nil: the Route is not in the graph, gets no configuration and no status. *)
+From NGF Require Import C17.Parent C17.ParentProofs.
+
+Theorem C17_kept_parentrefs_name_our_gateways :
+  forall refs rns gws out, section_refs refs rns gws = Some out ->
+  forall i g s, In (i, g, s) out -> In g gws /\ exists p, nth_error refs i = Some p /\ find_gw p rns gws = Some g /\ pf_section p = s.
+Proof. exact section_refs_only_our_gateways. Qed.
+
+Theorem C17_parentref_names_a_gateway_only_with_right_kind_group_namespace_name :
+  forall p rns gws g, find_gw p rns gws = Some g ->
+  In g gws /\ snd g = pf_name p /\ fst g = (match pf_ns p with Some n => n | None => rns end) /\
+  (pf_kind p = None \/ pf_kind p = Some "Gateway"%string) /\
+  (pf_group p = None \/ pf_group p = Some "gateway.networking.k8s.io"%string).
+Proof. exact find_gw_sound. Qed.
+
+Theorem C17_foreign_route_keeps_no_reference :
+  forall refs rns gws, (forall p, In p refs -> find_gw p rns gws = None) -> section_refs refs rns gws = Some [].
+Proof. exact foreign_route_keeps_no_reference. Qed.
+
+Theorem C17_without_a_gateway_of_ours_no_route_is_kept : forall refs rns, section_refs refs rns [] = Some [].
+Proof. exact no_gateway_no_reference. Qed.
